@@ -1,9 +1,149 @@
 import Lean.Data.Json
-/-! Driver handlers for property C20: `handle op request` answers one JSON request. -/
+import PydjinniModel.Sys.Pkg
+/-! Driver handlers for property C20: `c20.run` (packaging model on one configuration and fault) and
+    `c20.spec` (the specification predicate on an implementation observation). -/
 namespace Pydjinni.Drv.C20
-open Lean
+open Lean Pydjinni.Sys.Pkg
 
-def handle (op : String) (_req : Json) : Except String Json :=
-  throw s!"unknown op {op}"
+def strsJ (l : List String) : Json := Json.arr (l.map Json.str).toArray
+def pathsJ (l : List Path) : Json := Json.arr (l.map strsJ).toArray
+
+def getStrs (j : Json) : Except String (List String) := do
+  let a ← j.getArr?
+  a.toList.mapM (fun x => x.getStr?)
+
+def getPaths (j : Json) : Except String (List Path) := do
+  let a ← j.getArr?
+  a.toList.mapM getStrs
+
+def getP (j : Json) : Except String P := do
+  let isAbs ← j.getObjValAs? Bool "abs"
+  let c ← j.getObjVal? "c" >>= getStrs
+  pure (if isAbs then .abs c else .rel c)
+
+def optP (j : Json) (k : String) : Except String (Option P) :=
+  match j.getObjVal? k with
+  | .ok Json.null => pure none
+  | .ok v => some <$> getP v
+  | .error _ => pure none
+
+def getCfg (j : Json) : Except String Cfg := do
+  let plats ← j.getObjValAs? (Array Json) "platforms"
+  let platforms ← plats.toList.mapM (fun p => do
+    let a ← p.getArr?
+    match a.toList with
+    | [n, archs] => pure ((← n.getStr?), (← getStrs archs))
+    | _ => throw "platform entry")
+  let repoKind ← j.getObjValAs? String "swiftRepo"
+  let swiftRepo ← (match repoKind with
+    | "local" => do pure (SwiftRepo.localDir (← j.getObjVal? "swiftLocal" >>= getP))
+    | "git" => pure SwiftRepo.gitPath
+    | "url" => pure SwiftRepo.url
+    | k => throw s!"swiftRepo {k}")
+  pure {
+    key := ← j.getObjValAs? String "key"
+    target := ← j.getObjValAs? String "target"
+    version := ← j.getObjValAs? String "version"
+    configuration := ← j.getObjValAs? String "configuration"
+    out := ← j.getObjVal? "out" >>= getP
+    platforms := platforms
+    clean := ← j.getObjValAs? Bool "clean"
+    templates := ← j.getObjVal? "templates" >>= getPaths
+    distFiles := ← j.getObjVal? "distFiles" >>= getPaths
+    netVersion := ← j.getObjValAs? String "netVersion"
+    readme := ← optP j "readme"
+    mavenRemote := ← j.getObjValAs? Bool "mavenRemote"
+    nugetLocal := ← j.getObjValAs? Bool "nugetLocal"
+    swiftRepo := swiftRepo }
+
+def resJ : Res → Json
+  | .ok => "ok"
+  | .err .external => "external"
+  | .err .fileNotFound => "fileNotFound"
+  | .err (.oserror s) => Json.str ("oserror:" ++ s)
+
+def codeJ : Res → Json
+  | .ok => Json.null
+  | .err .external => (130 : Nat)
+  | .err .fileNotFound => (2 : Nat)
+  | .err (.oserror _) => (1 : Nat)
+
+def resultJ : ToolResult → Json
+  | .ok => "ok" | .missing => "missing" | .nonzero => "nonzero"
+
+def callJ (c : Call) : Json :=
+  Json.mkObj [("tool", c.tool), ("sig", strsJ c.sig), ("ranIn", strsJ c.ranIn), ("result", resultJ c.result), ("handled", c.handled)]
+
+def sortPaths (l : List Path) : List Path :=
+  (l.toArray.qsort (fun a b => "/".intercalate a < "/".intercalate b)).toList
+
+def getOracle (j : Json) : Except String Oracle :=
+  match j.getObjVal? "fault" with
+  | .ok Json.null | .error _ => pure allOk
+  | .ok f => do
+    let k ← f.getObjValAs? Nat "k"
+    let kind ← f.getObjValAs? String "kind"
+    match kind with
+    | "missing" => pure (missingFrom k)
+    | "nonzero" => pure (faultAt k .nonzero)
+    | _ => throw s!"fault kind {kind}"
+
+def pathsOr (j : Json) (k : String) : Except String (List Path) :=
+  match j.getObjVal? k with
+  | .ok v => getPaths v
+  | .error _ => pure []
+
+/-- `c20.run`: `phase = "package"` runs all `build` calls and `package`; `phase = "publish"` first runs that with
+    succeeding tools, applies the harness' edits to the tree (`remove`, `add`), then runs `publish` under the fault. -/
+def runOp (req : Json) : Except String Json := do
+  let cfg ← req.getObjVal? "cfg" >>= getCfg
+  let phase ← req.getObjValAs? String "phase"
+  let cwd ← req.getObjVal? "cwd" >>= getStrs
+  let files ← pathsOr req "files"
+  let orc ← getOracle req
+  let w0 : World := { cwd := cwd, files := files, dirs := [], flags := [], calls := [] }
+  let (r, w, pre) ← (match phase with
+    | "package" => pure (let (r, w) := run orc (packageOp cfg) w0; (r, w, Res.ok))
+    | "publish" => do
+      let (r0, w1) := run allOk (packageOp cfg) w0
+      let remove ← pathsOr req "remove"
+      let add ← pathsOr req "add"
+      let w2 : World := { w1 with calls := [], files := addFiles (w1.files.filter (fun f => !remove.any (fun d => under d f))) add,
+                                  dirs := w1.dirs.filter (fun f => !remove.any (fun d => under d f)) }
+      pure (let (r, w) := run orc (publishSteps cfg) w2; (r, w, r0))
+    | p => throw s!"phase {p}")
+  pure (Json.mkObj [("res", resJ r), ("code", codeJ r), ("prepare", resJ pre), ("cwd", strsJ w.cwd),
+    ("files", pathsJ (sortPaths w.files)), ("calls", Json.arr (w.calls.map callJ).toArray),
+    ("clean", clean w.calls)])
+
+def optNat (j : Json) (k : String) : Option Nat :=
+  match j.getObjVal? k with
+  | .ok Json.null | .error _ => none
+  | .ok v => match v.getNat? with | .ok n => some n | .error _ => none
+
+/-- `c20.spec` on an implementation observation -/
+def specOp (req : Json) : Except String Json := do
+  let key ← req.getObjValAs? String "key"
+  let phase ← req.getObjValAs? String "phase"
+  let fault : Option (Nat × Bool) ← (match req.getObjVal? "fault" with
+    | .ok Json.null | .error _ => pure none
+    | .ok f => do pure (some ((← f.getObjValAs? Nat "k"), (← f.getObjValAs? Bool "handled"))))
+  let maxLogged ← req.getObjValAs? Nat "maxLogged"
+  let o ← req.getObjVal? "obs"
+  let obs : Obs := {
+    code := optNat o "code"
+    cwdBefore := ← o.getObjVal? "cwdBefore" >>= getStrs
+    cwdAfter := ← o.getObjVal? "cwdAfter" >>= getStrs
+    outBefore := ← o.getObjVal? "outBefore" >>= getPaths
+    outAfter := ← o.getObjVal? "outAfter" >>= getPaths
+    ranIn := ← o.getObjVal? "ranIn" >>= getPaths }
+  let failed := spec key phase fault maxLogged obs
+  pure (Json.mkObj [("holds", failed.isEmpty), ("failed", strsJ failed)])
+
+def handle (op : String) (req : Json) : Except String Json :=
+  match op with
+  | "c20.run" => runOp req
+  | "c20.spec" => specOp req
+  | _ => throw s!"unknown op {op}"
 
 end Pydjinni.Drv.C20
